@@ -77,6 +77,14 @@ chk("C04", "exploration",
     "The lenient tokenizer and the rule description are the trusted oracle; rule sets are limited to the generated family; UTF-16LE is judged without the tokenizer.",
     "runtime oracle: independent tokenizer + metamorphic relations (validate∘filter, idempotence) under ASan/UBSan, libFuzzer", "DESIGN.md section 4 / C04", "xss_mon")
 
+chk("C10", "exploration",
+    "Real tcp_cache_service servers (1..2) and tcp_cache_factory clients (2..3, with or without an L1 cache) on loopback are driven by one thread in a random total order of store/fetch/rise/clear/stats under a virtual clock; "
+    "every fetch on every node must equal a sequential model of the servers (value, trigger set, deadline), in particular after another node replaced, invalidated or cleared a value still sitting in this node's L1; arbitrary "
+    "binary keys/values, >64 KiB values, 1000-trigger lists; the dump hook on the servers' backing caches checks single, stable placement. Found and fixed: an L1 refresh merged the replaced value's triggers. Known finding: keys or "
+    "trigger names containing NUL and empty trigger names (NUL-separated wire format).",
+    "Total order by one driver thread (no concurrent clients); remove() is a documented no-op for the network cache.",
+    "runtime monitor: sequential reference model across nodes + placement invariant through the dump hook, ASan/UBSan", "DESIGN.md section 4 / C10", "netcache_mon")
+
 chk("C11", "exploration",
     "Grammar-generated RFC 8259 documents carrying their abstract tree (all escape forms, surrogate pairs, numbers across the double range, depth 0..600) must be accepted iff depth <= 512 with node-by-node equal values; "
     "mutations, garbage and libFuzzer input go through the any-bytes oracle (target untouched on failure, UTF-8/depth invariants, save/load fixpoint from the second round); trees built via the API are written "
@@ -162,6 +170,7 @@ ENGINES = [
     dict(name="fstore_mon", path="harness/fstore_mon.cpp", serves_properties=["C18"], kind_free_text="crash-point enumerator for session_file_storage with write()/open() shims"),
     dict(name="aio_mon", path="harness/aio_mon.cpp", serves_properties=["C17"], kind_free_text="multi-threaded event-loop / worker-pool monitor (tsan, asan, plain flavors)"),
     dict(name="vsrv", path="harness/vsrv.cpp", serves_properties=["C01", "C02", "C03", "C12", "C13"], kind_free_text="real cppcms::service (http+scgi+fastcgi) with monitor apps, readv/writev schedule shims, event log; python protocol clients in vlib/proto.py, vlib/srv.py"),
+    dict(name="netcache_mon", path="harness/netcache_mon.cpp", serves_properties=["C10"], kind_free_text="in-process network-cache monitor (servers + clients on loopback)"),
     dict(name="codec_mon", path="harness/codec_mon.cpp", serves_properties=["C15"], kind_free_text="in-process monitor, inverse-function oracles"),
     dict(name="crypto_mon", path="harness/crypto_mon.cpp", serves_properties=["C16"], kind_free_text="in-process differential monitor against libgcrypt"),
     dict(name="ser_mon", path="harness/ser_mon.cpp", serves_properties=["C19"], kind_free_text="in-process monitor, shadow reader; also libFuzzer target ser_fuzz"),
